@@ -303,6 +303,8 @@ def run_check(prop, tier="quick", seed=0, replay=None):
             broken.append("leanchecker rejected: " + llog[-600:])
 
     # 2./3. correspondence + oracle -------------------------------------------
+    from harness import anchorcov
+    anchorcov.start()        # which lines of the anchored functions do the cases reach?
     cases = corpus_lines(prop) + list(mod.generate(rng, tier))
     stats = {}
     impl_out = []
@@ -406,6 +408,8 @@ def run_check(prop, tier="quick", seed=0, replay=None):
         rc = 1
 
     # 5. evidence --------------------------------------------------------------
+    anchorcov.stop()
+    anchor_cov = anchorcov.report(prop)
     samples = cases[:3] + cases[len(cases) // 2: len(cases) // 2 + 2]
     ev = {
         "property_id": prop,
@@ -434,6 +438,7 @@ def run_check(prop, tier="quick", seed=0, replay=None):
             "distribution": dict(sorted(stats.items(), key=lambda kv: -kv[1])[:40]),
             "extra": extra_stats,
             "generated": gen_info,
+            "anchored_code_lines_reached": anchor_cov,
             "broken": broken,
             "exhaustive": bool(getattr(mod, "EXHAUSTIVE", {}).get(tier, False)),
         },
